@@ -283,7 +283,7 @@ Exec(H, r, ins) ==
 (* seqs: [start, end, from, to] (from..to = byte range of the sequence's   *)
 (* instructions); sfrom / sstart: the pending sequence.                    *)
 InitRun(H) == [pos |-> 1, k |-> 1, r |-> InitRegs(H), rows |-> <<>>, files |-> <<>>, end |-> "run",
-               seqs |-> <<>>, sfrom |-> 1, kfrom |-> 1, sstart |-> <<>>]
+               seqs |-> <<>>, sfrom |-> 1, kfrom |-> 1, sstart |-> <<>>, merged |-> FALSE]
 
 FileOf(ins) == <<ins.raw, Trim(ins.x[1]), Trim(ins.x[2]), Trim(ins.x[3])>>
 
@@ -307,7 +307,10 @@ Apply(H, S, ins, n) ==
                       ELSE S.seqs,
              sfrom |-> IF fin THEN np ELSE S.sfrom,
              kfrom |-> IF fin THEN S.k + 1 ELSE S.kfrom,
-             sstart |-> IF fin THEN <<>> ELSE IF vis /\ S.sstart = <<>> THEN <<Trim(e.r.addr)>> ELSE S.sstart]
+             sstart |-> IF fin THEN <<>> ELSE IF vis /\ S.sstart = <<>> THEN <<Trim(e.r.addr)>> ELSE S.sstart,
+             \* an end_sequence row swallowed in tombstone mode after visible rows: the
+             \* reader sees the next sequence's rows appended to the unfinished one
+             merged |-> S.merged \/ (e.emit /\ e.r.tomb /\ e.r.es /\ S.sstart # <<>>)]
 
 (* byte-level step: decode at S.pos and apply (used by trace validation)   *)
 Step(H, b, S) ==
@@ -341,7 +344,11 @@ Resume(H, L, seq) == Run(H, TLCEval([list |-> SubSeq(L.list, seq.kfrom, seq.kto)
 (* Properties of a run                                                     *)
 RowAddr(row) == ZExt(row[1], 8)
 RowEs(row) == (row[6] \div 4) % 2 = 1
-(* addresses never decrease within a sequence and fit the address size *)
+(* addresses never decrease within a sequence and fit the address size.    *)
+(* As coded this holds for every run that is not `merged` (see Apply): a   *)
+(* swallowed end_sequence lets the registers restart at 0 in the middle of *)
+(* what the reader sees as one sequence -- a defect of gimli w.r.t. C04's  *)
+(* any-input clause, reported by the check from the observation.           *)
 Monotone(rows) == \A k \in 1..Len(rows) - 1 :
                      RowEs(rows[k]) \/ ULe(RowAddr(rows[k]), RowAddr(rows[k + 1]))
 InRange(rows, asz) == \A k \in 1..Len(rows) : Len(rows[k][1]) <= asz
@@ -475,27 +482,37 @@ EncForm(H, form, val) ==
       [] form = F_block2 -> Field(Len(val), 2, H.le) \o val
       [] form = F_block4 -> Field(Len(val), 4, H.le) \o val
 
+(* a numeric value restricted to what the form can carry *)
+FormWidth(H, form) ==
+    CASE form \in OffsetForms -> IF H.fmt = 64 THEN 8 ELSE 4
+      [] form \in {F_data1, F_flag, F_strx1} -> 1
+      [] form \in {F_data2, F_strx2} -> 2
+      [] form = F_strx3 -> 3
+      [] form \in {F_data4, F_strx4} -> 4
+      [] OTHER -> 8
+Dom(H, form, val) == ZExt(Trunc(val, FormWidth(H, form)), 8)
+
 (* the attribute value a reader reports for a form: <<kind, payload>> *)
-AttrOf(form, val) ==
+AttrOf(H, form, val) ==
     CASE form = F_string -> <<"string", val>>
-      [] form = F_line_strp -> <<"line_strp", Trim(val)>>
-      [] form = F_strp -> <<"strp", Trim(val)>>
-      [] form = F_strp_sup -> <<"strp_sup", Trim(val)>>
-      [] form = F_sec_offset -> <<"sec_offset", Trim(val)>>
-      [] form \in {F_strx, F_strx1, F_strx2, F_strx3, F_strx4} -> <<"strx", Trim(val)>>
+      [] form = F_line_strp -> <<"line_strp", Trim(Dom(H, form, val))>>
+      [] form = F_strp -> <<"strp", Trim(Dom(H, form, val))>>
+      [] form = F_strp_sup -> <<"strp_sup", Trim(Dom(H, form, val))>>
+      [] form = F_sec_offset -> <<"sec_offset", Trim(Dom(H, form, val))>>
+      [] form \in {F_strx, F_strx1, F_strx2, F_strx3, F_strx4} -> <<"strx", Trim(Dom(H, form, val))>>
       [] form = F_udata -> <<"udata", Trim(val)>>
       [] form = F_sdata -> <<"sdata", Trim(val)>>
-      [] form = F_data1 -> <<"data1", Trim(val)>>
-      [] form = F_data2 -> <<"data2", Trim(val)>>
-      [] form = F_data4 -> <<"data4", Trim(val)>>
+      [] form = F_data1 -> <<"data1", Trim(Dom(H, form, val))>>
+      [] form = F_data2 -> <<"data2", Trim(Dom(H, form, val))>>
+      [] form = F_data4 -> <<"data4", Trim(Dom(H, form, val))>>
       [] form = F_data8 -> <<"data8", Trim(val)>>
       [] form = F_flag -> <<"flag", IF val[1] = 0 THEN <<>> ELSE <<1>>>>
       [] form \in {F_block, F_block1, F_block2, F_block4, F_data16} -> <<"block", val>>
 
 (* value of a numeric attribute as an unsigned number, if it has one       *)
 (* (DWARF: directory index, timestamp and size are unsigned constants)     *)
-UdataOf(form, val) ==
-    IF form \in {F_udata, F_data1, F_data2, F_data4, F_data8} THEN <<Trim(val)>>
+UdataOf(H, form, val) ==
+    IF form \in {F_udata, F_data1, F_data2, F_data4, F_data8} THEN <<Trim(Dom(H, form, val))>>
     ELSE IF form = F_sdata /\ ~IsNeg(val) THEN <<Trim(val)>>
     ELSE <<>>
 
@@ -523,30 +540,30 @@ EncTablesV4(T) ==
 RECURSIVE LastOf(_, _, _, _)
 LastOf(fmt, vals, ct, k) ==      \* index of the last format entry with content type ct, 0 if none
     IF k = 0 THEN 0 ELSE IF fmt[k][1] = Nat8(ct) THEN k ELSE LastOf(fmt, vals, ct, k - 1)
-NumField(fmt, vals, ct) ==
+NumField(H, fmt, vals, ct) ==
     LET k == LastOf(fmt, vals, ct, Len(fmt)) IN
-    IF k = 0 THEN <<>> ELSE LET u == UdataOf(fmt[k][2], vals[k]) IN IF u = <<>> THEN <<>> ELSE u[1]
-DirMeaningV5(fmt, vals) == LET k == LastOf(fmt, vals, LNCT_path, Len(fmt)) IN AttrOf(fmt[k][2], vals[k])
+    IF k = 0 THEN <<>> ELSE LET u == UdataOf(H, fmt[k][2], vals[k]) IN IF u = <<>> THEN <<>> ELSE u[1]
+DirMeaningV5(H, fmt, vals) == LET k == LastOf(fmt, vals, LNCT_path, Len(fmt)) IN AttrOf(H, fmt[k][2], vals[k])
 (* md5: every DW_LNCT_MD5 entry that is a 16-byte block overwrites *)
-RECURSIVE Md5Of(_, _, _)
-Md5Of(fmt, vals, k) ==
+RECURSIVE Md5Of(_, _, _, _)
+Md5Of(H, fmt, vals, k) ==
     IF k = 0 THEN <<>>
-    ELSE IF fmt[k][1] = Nat8(LNCT_md5) /\ AttrOf(fmt[k][2], vals[k])[1] = "block" /\ Len(vals[k]) = 16
-         THEN vals[k] ELSE Md5Of(fmt, vals, k - 1)
-FileMeaningV5(fmt, vals) ==
+    ELSE IF fmt[k][1] = Nat8(LNCT_md5) /\ AttrOf(H, fmt[k][2], vals[k])[1] = "block" /\ Len(vals[k]) = 16
+         THEN vals[k] ELSE Md5Of(H, fmt, vals, k - 1)
+FileMeaningV5(H, fmt, vals) ==
     LET p == LastOf(fmt, vals, LNCT_path, Len(fmt))
         s == LastOf(fmt, vals, LNCT_source, Len(fmt)) IN
-    <<AttrOf(fmt[p][2], vals[p]), NumField(fmt, vals, LNCT_dir), NumField(fmt, vals, LNCT_time),
-      NumField(fmt, vals, LNCT_size), Md5Of(fmt, vals, Len(fmt)),
-      IF s = 0 THEN <<>> ELSE AttrOf(fmt[s][2], vals[s])>>
+    <<AttrOf(H, fmt[p][2], vals[p]), NumField(H, fmt, vals, LNCT_dir), NumField(H, fmt, vals, LNCT_time),
+      NumField(H, fmt, vals, LNCT_size), Md5Of(H, fmt, vals, Len(fmt)),
+      IF s = 0 THEN <<>> ELSE AttrOf(H, fmt[s][2], vals[s])>>
 FileMeaningV4(f) == <<<<"string", f[1]>>, Trim(f[2]), Trim(f[3]), Trim(f[4]), <<>>, <<>>>>
 (* a define_file entry (FileOf) in the same shape *)
 FileMeaningDef(f) == <<<<"string", f[1]>>, f[2], f[3], f[4], <<>>, <<>>>>
 
 DirMeanings(H, T) == IF H.ver <= 4 THEN [k \in 1..Len(T.dirs) |-> <<"string", T.dirs[k]>>]
-                     ELSE [k \in 1..Len(T.dirs) |-> DirMeaningV5(T.dfmt, T.dirs[k])]
+                     ELSE [k \in 1..Len(T.dirs) |-> DirMeaningV5(H, T.dfmt, T.dirs[k])]
 FileMeanings(H, T) == IF H.ver <= 4 THEN [k \in 1..Len(T.files) |-> FileMeaningV4(T.files[k])]
-                      ELSE [k \in 1..Len(T.files) |-> FileMeaningV5(T.ffmt, T.files[k])]
+                      ELSE [k \in 1..Len(T.files) |-> FileMeaningV5(H, T.ffmt, T.files[k])]
 
 (* a format is acceptable to the reader iff it has exactly one path entry  *)
 (* and only known forms (DWARF 6.2.4.1 requires the path; unknown forms    *)
